@@ -27,7 +27,7 @@ import asyncio
 import random
 
 from vf import cluster as C
-from vf.simharness import ClientSendTap, FaultPlan, Fate, make_cluster, owned, run_sim
+from vf.simharness import ClientSendTap, FaultPlan, Fate, make_cluster, owned, run_sim, idle_ms
 from vf.simloop import OWNER, kill_owner
 
 TOPIC = "t"
@@ -112,7 +112,7 @@ def run_history(P):
                 p = AIOKafkaProducer(bootstrap_servers=cl.bootstrap(), client_id=name, transactional_id=TXN_ID,
                                      request_timeout_ms=P["request_timeout_ms"], retry_backoff_ms=P["retry_backoff_ms"],
                                      linger_ms=P.get("linger_ms", 0), max_batch_size=P.get("max_batch_size", 600),
-                                     metadata_max_age_ms=5000)
+                                     metadata_max_age_ms=5000, connections_max_idle_ms=idle_ms(P))
                 await asyncio.wait_for(p.start(), 20 * txn_bound(P))
             prods[name] = p
             return p
